@@ -284,6 +284,38 @@ func checkC17(c *Ctx) {
 		}
 	}
 
+	// ---- C17-CLONE: overwriting a record through a pointer carries the definition its fields are checked against
+	if cf := c.mustFn("C17-CLONE", "SexpHash.CloneFrom"); cf != nil && len(cf.Params) >= 2 {
+		hashT := c.named("SexpHash")
+		// fields of the receiver that TypeCheckField reads
+		reads := map[*types.Var]bool{}
+		if hashT != nil && len(tcf.Params) > 0 {
+			eachInstr(tcf, func(b *ssa.BasicBlock, i int, in ssa.Instruction) {
+				if fa, ok := in.(*ssa.FieldAddr); ok && fa.X == ssa.Value(tcf.Params[0]) {
+					reads[faField(fa)] = true
+				}
+			})
+		}
+		copied := map[*types.Var]bool{}
+		eachInstr(cf, func(b *ssa.BasicBlock, i int, in ssa.Instruction) {
+			if st, ok := in.(*ssa.Store); ok {
+				if fa, ok := st.Addr.(*ssa.FieldAddr); ok && fa.X == ssa.Value(cf.Params[0]) {
+					copied[faField(fa)] = true
+				}
+			}
+		})
+		n := 0
+		for fld := range reads {
+			n++
+			c.check(copied[fld], "C17-CLONE", "SexpHash.CloneFrom", "copies "+fld.Name(), cf.Pos(),
+				"the field the type check consults travels with the record's contents",
+				"CloneFrom replaces a record's contents but not "+fld.Name()+", which TypeCheckField consults: after a redeclaration, a record overwritten through a pointer holds the new definition's fields while later writes are checked against the old one (declared fields rejected, stale ones accepted)")
+		}
+		if n == 0 {
+			c.undecided("C17-CLONE", "SexpHash.CloneFrom", "fields read by the type check", cf.Pos(), "TypeCheckField reads no field of its receiver")
+		}
+	}
+
 	// ---- C17-MAKE
 	if mk := c.mustFn("C17-MAKE", "MakeHash"); mk != nil {
 		tcr := c.mustFn("C17-MAKE", "RegisteredType.TypeCheckRecord")
